@@ -23,12 +23,22 @@ size_t rtosc_avmessage(char                  *buffer,
     STACKALLOC(rtosc_arg_t, vals, val_max);
     STACKALLOC(char, argstr,val_max+1);
 
-    int i;
+    int i, n_vals = 0;
     for(i = 0; i < val_max; ++i)
     {
         rtosc_arg_val_t av_buffer;
         const rtosc_arg_val_t* cur = rtosc_arg_val_itr_get(&itr, &av_buffer);
-        vals[i] = cur->val;
+        // rtosc_amessage reads no value for the types which carry none
+        switch(cur->type)
+        {
+            case 'T':
+            case 'F':
+            case 'N':
+            case 'I':
+                break;
+            default:
+                vals[n_vals++] = cur->val;
+        }
         argstr[i] = cur->type;
         rtosc_arg_val_itr_next(&itr);
     }
